@@ -372,7 +372,7 @@ func visitInstr(fr *frame, instr ssa.Instruction) continuation {
 			switch {
 			case t == nil:
 				fr.set(instr, &cells[ci])
-			case onlyLoadedOrStored(instr) && scalarCells(cells):
+			case len(cells) <= 1024 && onlyLoadedOrStored(instr) && scalarCells(cells):
 				fr.set(instr, symPtr{cells, t})
 			default:
 				fr.set(instr, &cells[P.concretize(t)])
@@ -409,7 +409,7 @@ func visitInstr(fr *frame, instr ssa.Instruction) continuation {
 				panic(runtimeError(fmt.Sprintf("index out of range [%d] with length %d", ci, len(cells))))
 			}
 			fr.set(instr, cells[ci])
-		case scalarCells(cells):
+		case len(cells) <= 1024 && scalarCells(cells):
 			fr.set(instr, selectCell(cells, t))
 		default:
 			fr.set(instr, cells[P.concretize(t)])
